@@ -51,11 +51,12 @@ def analyse(stack):
         k = lay[0]
         if cur is None:
             if k == "array":
-                _, sc, M = lay
+                sc, M = lay[1], lay[2]
+                ix = lay[3] if len(lay) > 3 else None          # optional non-default index type (the file format does not know it)
                 if not SC[sc][2]:
                     raise ValueError("array storage must be float or double for binary IO")
-                cur = dict(N=1, ins="u64", M=M, outs=sc, cpp=f"backend::array<{V(sc, M)}>", ty=("A", M), gen=[("A", sc, M)], store=sc,
-                           idx=True)
+                cur = dict(N=1, ins=ix or "u64", M=M, outs=sc, cpp=f"backend::array<{V(sc, M)}" + (f", {SC[ix][0]}>" if ix else ">"),
+                           ty=("A", M), gen=[("A", sc, M)], store=sc, idx=True)
             elif k == "constant":
                 _, si, N, so, M = lay
                 cur = dict(N=N, ins=si, M=M, outs=so, cpp=f"backend::constant<{V(si, N)}, {V(so, M)}>", ty=("C", SC[so][1], M),
@@ -146,7 +147,7 @@ def label(stack):
     for l in stack:
         k = l[0]
         if k == "array":
-            out.append(f"array<{l[1]}x{l[2]}>")
+            out.append(f"array<{l[1]}x{l[2]}" + (f",{l[3]}>" if len(l) > 3 else ">"))
         elif k == "constant":
             out.append(f"constant<{l[1]}x{l[2]}->{l[3]}x{l[4]}>")
         elif k == "identity":
@@ -264,6 +265,9 @@ def _fam():
           [["affine"], ["affine"], ["linear", "f32"], ["strided", "u64", 2], ["array", "f32", 1]],
           [["clamp"], ["clamp"], ["identity", "f32", 2]],
           [["backup"], ["backup"], ["strided", "u64", 2], ["array", "f32", 2]]]
+    # arrays with a non-default index type: the file image (8-byte count) does not depend on it
+    S += [[["array", "f32", 3, "u32"]], [["linear", "f32"], ["strided", "u64", 2], ["array", "f64", 1, "u32"]],
+          [["nn", "f32"], ["strided", "u64", 2], ["array", "f32", 1, "u32"]]]
     return S
 
 
